@@ -88,7 +88,10 @@ impl<K: KeyT, V: ValT> World<K, V> {
         }
     }
 
-    pub(crate) fn op_drain_filter(&mut self, acc: &mut Acc, mi: usize, pred: &Pred, mutate: Option<u32>, consume: Consume) {
+    pub(crate) fn op_drain_filter(&mut self, acc: &mut Acc, mi: usize, pred: &Pred, mutate: Option<u32>, consume: Consume, drop_panic: Option<u32>) {
+        // only tracked values have destructors the simulator owns
+        let drop_panic = if K::CLASS == ElemClass::Tracked { drop_panic } else { None };
+        ctx::with(|c| c.drop_fuse = drop_panic.map(|n| n as u64));
         let before = self.maps[mi].m.verif_state();
         let mutate = mutate.map(V::norm);
         let take = self.maps[mi].eval_pred(pred);
@@ -140,7 +143,17 @@ impl<K: KeyT, V: ValT> World<K, V> {
             }
         });
         let stats = (co.hashes, co.alloc.allocs);
-        match co.result {
+        ctx::with(|c| c.drop_fuse = None);
+        // A destructor panicked while the early-dropped iterator was removing the remaining
+        // matches: the panic propagates, but the removal must have been completed all the same
+        // (upstream keeps a guard for exactly this). Judge the outcome like a finished drop.
+        let mut result = co.result;
+        if let Err(Panic::Injected(ctx::Site::Drop, _)) = &result {
+            acc.probe("drain_filter-drop-panicked-destructor");
+            *acc.out.faults_extra.entry("panic@Drop").or_insert(0) += 1;
+            result = Ok(());
+        }
+        match result {
             Ok(()) => {
                 for w in wrong {
                     acc.anomaly("partition-mismatch", w);
@@ -806,13 +819,34 @@ impl<K: KeyT, V: ValT> World<K, V> {
             let key = K::make(kv);
             let val = V::make(kv);
             let (kid, vid) = (key.oid(), val.oid());
-            let co = call(|| sut(|| slot.m.insert(key, val)));
+            // the promised insertions may come through any inserting API
+            let co = call(|| match kv % 4 {
+                0 => sut(|| slot.m.insert(key, val)).is_some(),
+                1 => {
+                    sut(|| {
+                        slot.m.entry(key).or_insert(val);
+                    });
+                    false
+                }
+                2 => {
+                    let look = K::probe(kv);
+                    sut(|| {
+                        slot.m.raw_entry_mut().from_key(&look).insert(key, val);
+                    });
+                    false
+                }
+                _ => {
+                    sut(|| {
+                        slot.m.entry(key).insert(val);
+                    });
+                    false
+                }
+            });
             match co.result {
                 Ok(r) => {
-                    if r.is_some() {
+                    if r {
                         acc.wrong(format!("probe: fresh key {} was already present", kv));
                     }
-                    drop(r);
                     slot.model.insert(kv, MEntry { kid, vid, p: V::norm(kv) });
                     inserted += 1;
                     if co.alloc.allocs > 0 {
